@@ -186,6 +186,9 @@ def translate_kernels(src_path, info=None):
   out = [HEADER.format(src='device_kit/functions.py', sha=hashlib.sha256(src.encode()).hexdigest()[:16])]
   units, fallback = [], []
   siblings = {}
+  if os.path.join(HERE, '..') not in sys.path: sys.path.insert(0, os.path.join(HERE, '..'))
+  _tv = __import__('vk.translate_vec', fromlist=['scan_bindings'])      # (lazy: translate_vec imports this module)
+  tainted, _ = _tv.scan_bindings(os.path.dirname(src_path), set(KERNELS))      # rebinding / decorators / duplicate defs of a kernel
   for node in tree.body:
     if isinstance(node, ast.ClassDef) and node.name in KERNELS:
       fns = {f.name: f for f in node.body if isinstance(f, ast.FunctionDef)}
@@ -194,6 +197,9 @@ def translate_kernels(src_path, info=None):
         where = f"functions.py:{fns[m].lineno}" if m in fns else 'functions.py'
         if m not in fns:
           out.append(f"-- UNTRANSLATABLE {node.name}.{m}: method not found\n"); fallback.append((lname, where, 'missing')); continue
+        if (node.name, m) in tainted or (node.name, '*') in tainted:
+          why = 'the `def` is not what the name denotes: ' + tainted.get((node.name, m), tainted.get((node.name, '*')))
+          out.append(f"-- UNTRANSLATABLE {node.name}.{m} ({where}): {why}\n"); fallback.append((lname, where, why)); continue
         f = fns[m]
         args = [a.arg for a in f.args.args]
         exps = exponent_names(f)
